@@ -15,6 +15,9 @@
 //!             {"op":"import","s":i,"hex":"..."}        sk[i] = from_hex_string(hex) if Ok, unchanged if Err
 //!             {"op":"est","s":i}                       sk[i].estimate_count()
 //!             {"op":"obs","s":i}                       no call, only the register read-out
+//!             {"op":"clear","s":i}                     sk[i].clear()
+//!        after EVERY step the estimate of the live target sketch and of a fresh sketch imported from its
+//!        export are recorded: "ev":[live, fresh], each a decimal count, "panic" or "none" (import failed)
 //!        -> {"k":"beh","id":n,"steps":[{"res":"ok|err|panic","msg":..,"regs":[[idx,val]..],"hex_ok":b,"est":"dec"}..]}
 //!           ("rec":false suppresses the step's register read-out; the step is still listed)
 //!   {"k":"est","id":n,"hex":"..."} | {"k":"est","id":n,"new":true}
@@ -24,6 +27,9 @@
 //!                  "first_bad":i,"msg":..}
 //!   {"k":"acc","id":n,"seed":s,"n":card,"off":o,"reps":r}   card distinct uniformly random 32-byte elements,
 //!        each added r times in shuffled order -> {"k":"acc","id":n,"n":card,"res":..,"est":"dec","maxreg":m,"hex":..}
+//!   {"k":"pairs","id":n,"off":o,"idx":b,"els":[[rho,"<64 hex>"]..]}   for every ordered pair (i,j): a fresh sketch,
+//!        add els[i] then els[j] at offset o -> {"k":"pairs","id":n,"obs":[[register b after (i,j) ..]..],"dirty":[[i,j,why]..]}
+//!        (obs -1 = a call failed; dirty = some other register non-zero, export malformed, error or panic)
 //!   {"k":"elements","seed":s,"n":card}             -> the elements of an "acc" case (for replay files)
 
 use pocket_types::Hll8;
@@ -85,6 +91,22 @@ fn observe(h: &Hll8) -> (bool, Value, String) {
         },
         Err(e) => (false, json!([]), format!("panic in to_hex_string: {}", panic_msg(e))),
     }
+}
+
+/// estimate of the live sketch and of a fresh sketch imported from the live sketch's export
+fn est_pair(h: &Hll8) -> (String, String) {
+    let live = match catch_unwind(AssertUnwindSafe(|| h.estimate_count())) {
+        Ok(n) => n.to_string(),
+        Err(_) => "panic".to_string(),
+    };
+    let fresh = match catch_unwind(AssertUnwindSafe(|| Hll8::from_hex_string(&h.to_hex_string()))) {
+        Ok(Ok(f)) => match catch_unwind(AssertUnwindSafe(|| f.estimate_count())) {
+            Ok(n) => n.to_string(),
+            Err(_) => "panic".to_string(),
+        },
+        _ => "none".to_string(),
+    };
+    (live, fresh)
 }
 
 fn el_from_hex(s: &str) -> [u8; 32] {
@@ -157,20 +179,30 @@ fn run_beh(c: &Value) -> Value {
                 }
             }
             "obs" => ("ok".into(), String::new()),
+            "clear" => {
+                let tgt = &mut sk[s];
+                match catch_unwind(AssertUnwindSafe(|| tgt.clear())) {
+                    Ok(()) => ("ok".into(), String::new()),
+                    Err(e) => ("panic".into(), panic_msg(e)),
+                }
+            }
             other => panic!("unknown op {}", other),
         };
+        let (el, ef) = est_pair(&sk[s]);
         if rec {
             let (hex_ok, regs, raw) = observe(&sk[s]);
-            steps.push(json!({"res": res, "msg": msg, "regs": regs, "hex_ok": hex_ok, "raw": raw, "est": est}));
+            steps.push(json!({"res": res, "msg": msg, "regs": regs, "hex_ok": hex_ok, "raw": raw, "est": est, "ev": [el, ef]}));
         } else {
-            steps.push(json!({"res": res, "msg": msg, "regs": [], "hex_ok": true, "raw": "", "est": est, "norec": true}));
+            steps.push(json!({"res": res, "msg": msg, "regs": [], "hex_ok": true, "raw": "", "est": est, "norec": true, "ev": [el, ef]}));
         }
     }
     json!({"k": "beh", "id": c["id"], "steps": steps})
 }
 
-/// import a register state and estimate; (imp, res, est, rt_ok, msg)
-fn import_estimate(hex: &str) -> (String, String, String, bool, String) {
+/// import a register state and estimate; (imp, res, est, rt_ok, msg); `same` is set to false when the
+/// sketch imported from this sketch's own export estimates differently
+fn import_estimate(hex: &str, same: &mut bool) -> (String, String, String, bool, String) {
+    *same = true;
     let h = match catch_unwind(AssertUnwindSafe(|| Hll8::from_hex_string(hex))) {
         Ok(Ok(h)) => h,
         Ok(Err(e)) => return ("err".into(), "none".into(), String::new(), false, format!("{}", e.inner)),
@@ -180,6 +212,8 @@ fn import_estimate(hex: &str) -> (String, String, String, bool, String) {
         Ok(s) => decode(&s) == decode(hex),
         Err(_) => false,
     };
+    let (live, fresh) = est_pair(&h);
+    *same = live == fresh;
     match catch_unwind(AssertUnwindSafe(|| h.estimate_count())) {
         Ok(n) => ("ok".into(), "ok".into(), n.to_string(), rt_ok, String::new()),
         Err(e) => ("ok".into(), "panic".into(), String::new(), rt_ok, panic_msg(e)),
@@ -192,26 +226,32 @@ fn run_est(c: &Value) -> Value {
         let (hex_ok, regs, _) = observe(&h);
         let empty = hex_ok && regs.as_array().map(|a| a.is_empty()).unwrap_or(false);
         return match catch_unwind(AssertUnwindSafe(|| h.estimate_count())) {
-            Ok(n) => json!({"k": "est", "id": c["id"], "imp": "ok", "res": "ok", "est": n.to_string(), "rt_ok": empty, "msg": ""}),
-            Err(e) => json!({"k": "est", "id": c["id"], "imp": "ok", "res": "panic", "est": "", "rt_ok": empty, "msg": panic_msg(e)}),
+            Ok(n) => json!({"k": "est", "id": c["id"], "imp": "ok", "res": "ok", "est": n.to_string(), "rt_ok": empty, "msg": "", "same": est_pair(&h).0 == est_pair(&h).1}),
+            Err(e) => json!({"k": "est", "id": c["id"], "imp": "ok", "res": "panic", "est": "", "rt_ok": empty, "msg": panic_msg(e), "same": true}),
         };
     }
-    let (imp, res, est, rt_ok, msg) = import_estimate(c["hex"].as_str().expect("hex"));
-    json!({"k": "est", "id": c["id"], "imp": imp, "res": res, "est": est, "rt_ok": rt_ok, "msg": msg})
+    let mut same = true;
+    let (imp, res, est, rt_ok, msg) = import_estimate(c["hex"].as_str().expect("hex"), &mut same);
+    json!({"k": "est", "id": c["id"], "imp": imp, "res": res, "est": est, "rt_ok": rt_ok, "msg": msg, "same": same})
 }
 
 fn run_extremes(c: &Value, out: &mut dyn Write) {
     let bg = c["bg"].as_u64().expect("bg") as u8;
     for v in 0..=255u8 {
-        let (mut ok, mut pn, mut ie, mut rtb, mut sat) = (0u32, 0u32, 0u32, 0u32, 0u32);
+        let (mut ok, mut pn, mut ie, mut rtb, mut sat, mut ediff) = (0u32, 0u32, 0u32, 0u32, 0u32, 0u32);
         let (mut emin, mut emax): (Option<u128>, Option<u128>) = (None, None);
         let mut first_bad: i64 = -1;
         let mut msg = String::new();
         for i in 0..256usize {
             let mut regs = [bg; 256];
             regs[i] = v;
-            let (imp, res, est, rt_ok, m) = import_estimate(&encode(&regs));
+            let mut same = true;
+            let (imp, res, est, rt_ok, m) = import_estimate(&encode(&regs), &mut same);
             let mut bad = false;
+            if imp == "ok" && !same {
+                ediff += 1;
+                bad = true;
+            }
             if imp != "ok" {
                 ie += 1;
                 bad = true;
@@ -237,14 +277,50 @@ fn run_extremes(c: &Value, out: &mut dyn Write) {
             }
             if bad && first_bad < 0 {
                 first_bad = i as i64;
-                msg = format!("import={} estimate={} {} rt_ok={} {}", imp, res, est, rt_ok, m);
+                msg = format!("import={} estimate={} {} rt_ok={} same_estimate_after_round_trip={} {}", imp, res, est, rt_ok, same, m);
             }
         }
-        writeln!(out, "{}", json!({"k": "row", "id": c["id"], "bg": bg, "v": v, "ok": ok, "panic": pn, "imperr": ie, "rt_bad": rtb, "sat": sat,
+        writeln!(out, "{}", json!({"k": "row", "id": c["id"], "bg": bg, "v": v, "ok": ok, "panic": pn, "imperr": ie, "rt_bad": rtb, "sat": sat, "ediff": ediff,
             "est_min": emin.map(|x| x.to_string()).unwrap_or_default(),
             "est_max": emax.map(|x| x.to_string()).unwrap_or_default(),
             "first_bad": first_bad, "msg": msg})).unwrap();
     }
+}
+
+fn run_pairs(c: &Value) -> Value {
+    let off = c["off"].as_u64().expect("off") as usize;
+    let idx = c["idx"].as_u64().expect("idx") as usize;
+    let els: Vec<[u8; 32]> = c["els"].as_array().expect("els").iter().map(|p| el_from_hex(p[1].as_str().expect("el"))).collect();
+    let mut obs: Vec<Vec<i64>> = Vec::with_capacity(els.len());
+    let mut dirty: Vec<Value> = Vec::new();
+    for (i, a) in els.iter().enumerate() {
+        let mut row = Vec::with_capacity(els.len());
+        for (j, b) in els.iter().enumerate() {
+            let r = catch_unwind(AssertUnwindSafe(|| {
+                let mut h = Hll8::new();
+                let r1 = h.add_element(a, off).is_ok();
+                let r2 = h.add_element(b, off).is_ok();
+                (r1 && r2, h.to_hex_string())
+            }));
+            let (v, why) = match r {
+                Ok((true, s)) => match decode(&s) {
+                    Some(regs) => {
+                        let others = regs.iter().enumerate().any(|(k, x)| k != idx && *x != 0);
+                        (regs[idx] as i64, if others { "another register is non-zero" } else { "" })
+                    }
+                    None => (-1, "export is not 512 hex digits"),
+                },
+                Ok((false, _)) => (-1, "add_element returned Err"),
+                Err(_) => (-1, "panic"),
+            };
+            if !why.is_empty() && dirty.len() < 20 {
+                dirty.push(json!([i, j, why]));
+            }
+            row.push(v);
+        }
+        obs.push(row);
+    }
+    json!({"k": "pairs", "id": c["id"], "obs": obs, "dirty": dirty})
 }
 
 fn gen_elements(seed: u64, n: usize) -> Vec<[u8; 32]> {
@@ -308,7 +384,8 @@ fn run_acc(c: &Value) -> Value {
             }
         }
     }
-    json!({"k": "acc", "id": c["id"], "n": n, "off": off, "seed": seed, "reps": reps, "res": res, "msg": msg, "est": est,
+    let (el, ef) = est_pair(&h);
+    json!({"k": "acc", "id": c["id"], "n": n, "off": off, "seed": seed, "reps": reps, "res": res, "msg": msg, "est": est, "ev": [el, ef],
            "maxreg": maxreg, "nonzero": nonzero, "hex_ok": hex_ok, "raw": raw})
 }
 
@@ -330,6 +407,7 @@ fn main() {
             "est" => writeln!(out, "{}", run_est(&c)).unwrap(),
             "extremes" => run_extremes(&c, &mut out),
             "acc" => writeln!(out, "{}", run_acc(&c)).unwrap(),
+            "pairs" => writeln!(out, "{}", run_pairs(&c)).unwrap(),
             "elements" => {
                 let els = gen_elements(c["seed"].as_u64().expect("seed"), c["n"].as_u64().expect("n") as usize);
                 let hx: Vec<String> = els.iter().map(|e| vh::hex(e)).collect();
